@@ -94,19 +94,15 @@ Proof.
   - injection H as <-. subst f. auto.
 Qed.
 
-Lemma g0_pos : 0 < 2 ^ (bit_len x / n).
+(** partial correctness from ANY positive first guess: whatever fuel was given, an answer is the
+    truncated root (covers the repaired and the pre-repair first guess) *)
+Theorem newton_root_from_correct : forall fuel g0 r, 0 < g0 ->
+  newton_root_from fuel x n g0 = Ok r -> 0 < r /\ r ^ n <= x < (r + 1) ^ n.
 Proof.
-  apply Z.pow_pos_nonneg; [lia|]. apply Z.div_pos; [|lia]. unfold bit_len.
-  destruct (x =? 0); [lia|]. pose proof (Z.log2_nonneg x). lia.
-Qed.
-
-(** partial correctness: whatever fuel was given, an answer is the truncated root *)
-Theorem newton_root_correct : forall fuel r, newton_root fuel x n = Ok r -> 0 < r /\ r ^ n <= x < (r + 1) ^ n.
-Proof.
-  intros fuel r H. unfold newton_root in H.
-  destruct (newton_up fuel x n (2 ^ (bit_len x / n)) (newton_next x n (2 ^ (bit_len x / n)))) as [[g f]| | |] eqn:E;
+  intros fuel g0 r Hg0 H. unfold newton_root_from in H.
+  destruct (newton_up fuel x n g0 (newton_next x n g0)) as [[g f]| | |] eqn:E;
     cbn [rbind fst snd] in H; try discriminate.
-  apply up_spec in E; [|apply g0_pos | reflexivity]. destruct E as [Hg [Hf Hfg]].
+  apply up_spec in E; [|exact Hg0 | reflexivity]. destruct E as [Hg [Hf Hfg]].
   assert (UB g) as HU.
   { intros t Ht Htx. destruct (Z_le_gt_dec t g) as [L|L]; [exact L|exfalso].
     assert ((g + 1) ^ n <= t ^ n) by (apply Z.pow_le_mono_l; lia).
@@ -119,8 +115,39 @@ Proof.
     specialize (HUr (r + 1) ltac:(lia) L). lia.
 Qed.
 
-(** termination: fuel x + 2 is enough (the real iteration converges quadratically; this crude bound
-    is all the statement "never OutOfFuel" needs) *)
+Lemma g0_pos : 0 < newton_g0 x n.
+Proof.
+  unfold newton_g0. apply Z.pow_pos_nonneg; [lia|].
+  assert (0 <= (bit_len x - 1) / n); [|lia]. apply Z.div_pos; [|lia]. unfold bit_len.
+  destruct (Z.eqb_spec x 0); [lia|]. pose proof (Z.log2_nonneg x). lia.
+Qed.
+
+Lemma g0_prefix_pos : 0 < newton_g0_prefix x n.
+Proof.
+  unfold newton_g0_prefix. apply Z.pow_pos_nonneg; [lia|]. apply Z.div_pos; [|lia]. unfold bit_len.
+  destruct (x =? 0); [lia|]. pose proof (Z.log2_nonneg x). lia.
+Qed.
+
+Theorem newton_root_correct : forall fuel r, newton_root fuel x n = Ok r -> 0 < r /\ r ^ n <= x < (r + 1) ^ n.
+Proof. intros fuel r. apply newton_root_from_correct. apply g0_pos. Qed.
+
+Theorem newton_root_prefix_correct : forall fuel r, newton_root_prefix fuel x n = Ok r -> 0 < r /\ r ^ n <= x < (r + 1) ^ n.
+Proof. intros fuel r. apply newton_root_from_correct. apply g0_prefix_pos. Qed.
+
+(** the repaired first guess is a strict overestimate: x < g0 ^ n *)
+Lemma g0_above : x < newton_g0 x n ^ n.
+Proof.
+  unfold newton_g0, bit_len. destruct (Z.eqb_spec x 0); [lia|].
+  replace (Z.log2 x + 1 - 1) with (Z.log2 x) by lia.
+  pose proof (Z.log2_spec x Hx) as [_ U]. pose proof (Z.log2_nonneg x) as L0. unfold Z.succ in U.
+  set (l := Z.log2 x) in *.
+  assert (0 <= l / n) by (apply Z.div_pos; lia).
+  rewrite <- Z.pow_mul_r by lia.
+  pose proof (Z.div_mod l n ltac:(lia)) as DM. pose proof (Z.mod_pos_bound l n ltac:(lia)) as MB.
+  assert (2 ^ (l + 1) <= 2 ^ ((l / n + 1) * n)) by (apply Z.pow_le_mono_r; nia). lia.
+Qed.
+
+(** termination *)
 Lemma le_pow_self : forall g, 1 <= g -> g <= g ^ n.
 Proof.
   intros g Hg. rewrite pow_split. assert (1 <= g ^ (n - 1)); [|nia].
@@ -155,25 +182,35 @@ Proof.
   - eauto.
 Qed.
 
-Lemma g0_le_x : 2 ^ (bit_len x / n) <= x.
+(** termination of the repaired iteration: the climbing loop is skipped (the first guess is above the
+    root) and the descent is strictly decreasing from g0 = 2^ceil(bits/n) < 2 * (root + 1): fuel g0 + 1 is enough *)
+Theorem newton_root_terminates : forall fuel, newton_g0 x n < Z.of_nat fuel -> exists r, newton_root fuel x n = Ok r.
 Proof.
-  unfold bit_len. destruct (Z.eqb_spec x 0); [lia|].
-  pose proof (Z.log2_spec x Hx) as [L _]. pose proof (Z.log2_nonneg x).
-  assert ((Z.log2 x + 1) / n <= Z.log2 x).
-  { destruct (Z.eq_dec (Z.log2 x) 0) as [E|NE].
-    - rewrite E. rewrite Z.div_small by lia. lia.
-    - apply Z.div_le_upper_bound; nia. }
-  assert (2 ^ ((Z.log2 x + 1) / n) <= 2 ^ Z.log2 x) by (apply Z.pow_le_mono_r; lia). lia.
+  intros fuel Hf. unfold newton_root, newton_root_from.
+  pose proof g0_pos as G0. pose proof (next_lt_above _ G0 g0_above) as NL. fold next.
+  destruct fuel as [|k]; [cbn in Hf; lia|].
+  cbn [newton_up]. fold next. destruct (Z.ltb_spec (newton_g0 x n) (next (newton_g0 x n))) as [L|L]; [lia|].
+  cbn [rbind fst snd]. apply down_terminates; [exact G0 | reflexivity | lia].
 Qed.
 
-Theorem newton_root_terminates : forall fuel, x + 2 <= Z.of_nat fuel -> exists r, newton_root fuel x n = Ok r.
+(** the climbing loop of the repaired iteration never runs *)
+Theorem newton_root_no_overshoot : forall k,
+  newton_up (S k) x n (newton_g0 x n) (next (newton_g0 x n)) = Ok (newton_g0 x n, next (newton_g0 x n)) /\
+  next (newton_g0 x n) < newton_g0 x n.
 Proof.
-  intros fuel Hf. unfold newton_root.
-  destruct (up_terminates fuel (2 ^ (bit_len x / n)) (newton_next x n (2 ^ (bit_len x / n))))
-    as [g [f [E Hg]]]; [apply g0_pos | apply g0_le_x | reflexivity | pose proof g0_pos; lia|].
+  intros k. pose proof (next_lt_above _ g0_pos g0_above) as NL. split; [|exact NL].
+  cbn [newton_up]. destruct (Z.ltb_spec (newton_g0 x n) (next (newton_g0 x n))) as [L|L]; [lia|reflexivity].
+Qed.
+
+(** crude termination from any first guess not above x (what the pre-repair code satisfies) *)
+Theorem newton_root_from_terminates : forall fuel g0, 0 < g0 -> g0 <= x -> x + 2 <= Z.of_nat fuel ->
+  exists r, newton_root_from fuel x n g0 = Ok r.
+Proof.
+  intros fuel g0 Hg0 Hle Hf. unfold newton_root_from.
+  destruct (up_terminates fuel g0 (newton_next x n g0)) as [g [f [E Hg]]]; [exact Hg0 | exact Hle | reflexivity | lia|].
   rewrite E. cbn [rbind fst snd].
-  pose proof (up_spec _ _ _ _ _ g0_pos eq_refl E) as [Hg0 [Hf0 _]].
-  apply down_terminates; [exact Hg0 | exact Hf0 | lia].
+  pose proof (up_spec _ _ _ _ _ Hg0 eq_refl E) as [Hg1 [Hf0 _]].
+  apply down_terminates; [exact Hg1 | exact Hf0 | lia].
 Qed.
 
 End Newton.
@@ -219,7 +256,7 @@ Proof.
   destruct (Z.eqb_spec n 0); [injection H as <-; auto|].
   destruct (n =? 1); [discriminate|]. destruct (n =? 2); [discriminate|].
   destruct (bit_len x =? 0); [discriminate|]. destruct (bit_len x <=? n); [discriminate|].
-  unfold newton_root in H.
+  unfold newton_root, newton_root_from in H.
   assert (forall k g f, newton_up k x n g f <> Panic r) as U.
   { induction k; intros g f; cbn [newton_up]; [discriminate|]. destruct (g <? f); [apply IHk|discriminate]. }
   assert (forall k g f, newton_down k x n g f <> Panic r) as D.
@@ -232,6 +269,12 @@ Qed.
 (** the defect repaired by F01, kept as a refuted statement about the pre-repair code *)
 Lemma nth_root_prefix_refuted : exists fuel x n r, nth_root_prefix fuel x n = Ok r /\ root_cert n x r = false.
 Proof. exists 10%nat, 0, 3, 1. split; reflexivity. Qed.
+
+(** the defect repaired by F08 (performance): from the pre-repair first guess the 33rd root of 7^33
+    is not reached within 300 Newton steps; from the repaired one 10 steps are enough *)
+Lemma newton_root_prefix_slow_refuted :
+  newton_root_prefix 300 (7 ^ 33) 33 = OutOfFuel /\ newton_root 10 (7 ^ 33) 33 = Ok 7.
+Proof. split; vm_compute; reflexivity. Qed.
 
 (** IBig::nth_root and IBig::cbrt: truncated toward zero, sign of the radicand *)
 Theorem inth_root_asis_correct : forall fuel x n r, 0 <= n -> inth_root_asis fuel x n = Ok r -> iroot_cert n x r = true.
